@@ -1092,6 +1092,65 @@ func runC01(c *Ctx) error {
 		rn.one(s, coq)
 	}
 
+	// batch API: validation.ValidateTxs runs its transactions on worker goroutines; result i must
+	// describe transaction i (verdict and reported fee), whatever order the workers finish in.
+	// Cheap and expensive programs alternate so that completion order differs from input order.
+	{
+		heavy := []byte{}
+		for k := 0; k < 150; k++ {
+			heavy = append(heavy, 0x51, 0xaa, 0x75) // TRUE SHA3 DROP
+		}
+		heavy = append(heavy, 0x51)
+		batches := c.N(25, 120)
+		for b := 0; b < batches; b++ {
+			var txs []*bc.Tx
+			var tds []*types.Tx
+			n := 4 + c.Rng.Intn(12)
+			for i := 0; i < n; i++ {
+				prog := []byte{0x51}
+				if i%2 == 0 {
+					prog = heavy
+				}
+				fee := uint64(100000000 + 1000000*uint64(i) + uint64(c.Rng.Intn(1000)))
+				amt := fee + uint64(c.Rng.Intn(1000000))
+				if c.Rng.Chance(10) {
+					fee = amt + 1 // unbalanced: must be rejected at index i
+				}
+				td := types.TxData{Version: 1,
+					Inputs:  []*types.TxInput{types.NewSpendInput(nil, seedHash(nextSrc()), *consensus.BTMAssetID, amt, 0, prog, nil)},
+					Outputs: []*types.TxOutput{types.NewOriginalTxOutput(*consensus.BTMAssetID, amt-fee, []byte{0x51}, nil)}}
+				if fee > amt {
+					td.Outputs[0].Amount = amt + 1
+				}
+				bs, _ := td.MarshalText()
+				td.SerializedSize = uint64(len(bs))
+				tx := types.NewTx(td)
+				tds = append(tds, tx)
+				txs = append(txs, tx.Tx)
+			}
+			blk := &bc.Block{BlockHeader: &bc.BlockHeader{Height: 100, Version: 1}}
+			res := validation.ValidateTxs(txs, blk, nil)
+			c.Stats.Count("batch:ValidateTxs")
+			for i, tx := range tds {
+				g, err := validation.ValidateTx(tx.Tx, blk, nil)
+				if i >= len(res) {
+					c.Stats.Fail("class=batch-result-misplaced: ValidateTxs returned fewer results than transactions", map[string]interface{}{"batch": n})
+					break
+				}
+				if (res[i].GetError() == nil) != (err == nil) {
+					c.Stats.Fail(fmt.Sprintf("class=batch-result-misplaced: ValidateTxs result %d of %d: accepted=%v, the transaction alone: accepted=%v", i, n, res[i].GetError() == nil, err == nil), map[string]interface{}{"batch": n, "index": i})
+					b = batches
+					break
+				}
+				if err == nil && (res[i].GetGasState().BTMValue != g.BTMValue || g.BTMValue != tx.Fee()) {
+					c.Stats.Fail(fmt.Sprintf("class=batch-result-misplaced: ValidateTxs result %d of %d reports fee %d, the transaction's fee is %d (Fee() %d)", i, n, res[i].GetGasState().BTMValue, g.BTMValue, tx.Fee()), map[string]interface{}{"batch": n, "index": i})
+					b = batches
+					break
+				}
+			}
+		}
+	}
+
 	d := c.Stats.Distribution
 	acc, rej := d["result:accepted"], d["result:rejected-value"]+d["result:rejected-other"]
 	c.Stats.Extra["acceptance_rate"] = fmt.Sprintf("%.3f", float64(acc)/float64(acc+rej+d["result:panic"]))
